@@ -239,6 +239,26 @@ pub unsafe extern "C" fn mmap(
     if r == -1 { libc::MAP_FAILED } else { r as *mut c_void }
 }
 
+/// Descriptor pairs created through pipe2(2) (a10's fall-back when the kernel
+/// refuses IORING_OP_PIPE).
+static PIPE2_LOG: std::sync::Mutex<Vec<[i32; 2]>> = std::sync::Mutex::new(Vec::new());
+
+pub fn take_pipe2() -> Vec<[i32; 2]> {
+    let _scope = track::scope(track::TAG_HARNESS);
+    std::mem::take(&mut *PIPE2_LOG.lock().unwrap_or_else(|e| e.into_inner()))
+}
+
+#[unsafe(no_mangle)]
+pub unsafe extern "C" fn pipe2(fds: *mut c_int, flags: c_int) -> c_int {
+    let _scope = track::scope(track::TAG_HARNESS);
+    let ret = unsafe { libc::syscall(libc::SYS_pipe2, fds, flags) } as c_int;
+    if ret == 0 && !fds.is_null() {
+        let pair = unsafe { [fds.read(), fds.add(1).read()] };
+        PIPE2_LOG.lock().unwrap_or_else(|e| e.into_inner()).push(pair);
+    }
+    ret
+}
+
 #[unsafe(no_mangle)]
 pub unsafe extern "C" fn munmap(addr: *mut c_void, len: usize) -> c_int {
     let _scope = track::scope(track::TAG_HARNESS);
